@@ -21,5 +21,11 @@ Proof. exact check_ob_sound. Qed.
 Print Assumptions C11_checker_sound.
 
 (* non-vacuity: there are obligations of every kind; e.g. the CAN header alone contributes more than 400 *)
+(* the payload-level API (CanPayload::getId, LinPayload::setFlag, TECMP::CaptureModulePayload::getSerialNumber ... - about 160 wrappers in
+   the current sources) is, wrapper by wrapper, a pure forwarder to the Header accessor of the same name *)
+Theorem C11_wrappers_forward_to_the_header_accessors : wrappers_ok = true.
+Proof. vm_compute. reflexivity. Qed.
+Print Assumptions C11_wrappers_forward_to_the_header_accessors.
+
 Example C11_nonvacuous : (1000 <? Z.of_nat (List.length all_obs)) = true /\ (400 <? Z.of_nat (List.length (obs_class spec_can_header))) = true.
 Proof. vm_compute. split; reflexivity. Qed.
